@@ -1,13 +1,16 @@
 /-
 Model of the metrics WAL RECOVERY layer (C10, slice "walrecover"), on top of Model/Wal.lean.
-Mirrors  pkg/segment/writer/metrics/metricssegment.go  (line numbers of /repo at da5d5a2):
+Mirrors  pkg/segment/writer/metrics/metricssegment.go  (with the repairs build/patches/c10-1 … c10-4; the line
+numbers of the writer functions are those of /repo at da5d5a2):
 
-  extractWALFileInfo   629-673   os.ReadDir (sorted by file name, byte-wise) ; strings.Split(name, "_") ; >= 6 parts ;
-                                 mId = parts[1], segID = ParseUint(parts[3]), blockNo = ParseUint(parts[5]) ;
-                                 key = mId_segIDStr_blockNoStr ; the WAL file index is NOT parsed: the files of one
-                                 group are replayed in DIRECTORY order (so `_10.wal` comes before `_2.wal`)
-  RecoverWALData       705-755   per group ONE MetricsBlock; every file of the group replayed into it in that order;
-                                 file deleted after replay; ONE flushBlock(seg, blk) iff at least one datapoint
+  extractWALFileInfo   os.ReadDir (sorted by file name, byte-wise) ; strings.Split(name, "_") ; >= 6 parts ;
+                       mId = parts[1], segID = ParseUint(parts[3]), blockNo = ParseUint(parts[5]) ;
+                       key = mId_segIDStr_blockNoStr ; every group's files sorted by walFileIndex (repair c10-1;
+                       before it they stayed in DIRECTORY order, `_10.wal` before `_2.wal`: groupsOld)
+  RecoverWALData       a group whose first WAL file (index 0) is gone is only deleted (repair c10-3) ; otherwise ONE
+                       MetricsBlock per group, every file of the group replayed into it in that order, ONE
+                       flushBlock(seg, blk) iff at least one datapoint, and the replayed files deleted AFTER the
+                       flush (repair c10-2; before it each file was deleted right after its replay: recoverActionsOld)
   appendToWALBuffer   2058-2084  buffer full (dpIdx >= WAL_BLOCK_FLUSH_SIZE) -> Append + (size > MAX -> rotateWAL), dpIdx = 0
   timeBasedWalDPSFlush 2086-2108 dpIdx > 0 -> Append + (size > MAX -> rotateWAL), dpIdx = 0
   rotateWAL / initNewDpWal 2110-2128  currentWALIndex++ ; new file  shardID_<mId>_segID_<dpWalState.segID>_blockID_<Blknum>_<idx>.wal
@@ -113,7 +116,25 @@ def groupsOfSorted : RawDir → List Group → List Group
     | none => groupsOfSorted fs acc
     | some i => groupsOfSorted fs (addFile i f acc)
 
-def groups (d : RawDir) : List Group := groupsOfSorted (readDir d) []
+/-- extractWALFileInfo BEFORE the repair c10-1: the files of a group stay in directory (name) order -/
+def groupsOld (d : RawDir) : List Group := groupsOfSorted (readDir d) []
+
+/-- strings.TrimSuffix(fileName, ".wal") -/
+def stripWal (n : Name) : Name := if ".wal".toList.isSuffixOf n then n.take (n.length - 4) else n
+/-- name[strings.LastIndex(name, "_")+1:] -/
+def afterLastU (n : Name) : Name := (n.reverse.takeWhile (· != '_')).reverse
+/-- walFileIndex: the <n> of "..._<n>.wal", MaxUint64 when it is not a number -/
+def walIndexOf (n : Name) : Nat := (parseUint (afterLastU (stripWal n))).getD 18446744073709551615
+
+/-- sort.SliceStable by walFileIndex -/
+def insertByIndex (x : RawFile) : List RawFile → List RawFile
+  | [] => [x]
+  | y :: ys => if walIndexOf y.1 < walIndexOf x.1 then y :: insertByIndex x ys else x :: y :: ys
+def sortByIndex (l : List RawFile) : List RawFile := l.foldr insertByIndex []
+
+/-- extractWALFileInfo (after c10-1): every group's files sorted by their WAL index, i.e. in the order in which
+the writer created them -/
+def groups (d : RawDir) : List Group := (groupsOld d).map (fun g => { g with files := sortByIndex g.files })
 
 /-! ### RecoverWALData -/
 
@@ -124,11 +145,28 @@ def fileDps (f : RawFile) : List Dp := f.2.flatten
 /-- the datapoints replayed for one group, in replay order -/
 def groupDps (g : Group) : List Dp := g.files.flatMap fileDps
 
-/-- one element per flushBlock call: (shard, seg, blk) and the datapoints of the block that is written -/
-def recover (d : RawDir) : List (Key × List Dp) :=
-  (groups d).filterMap (fun g =>
+/-- RecoverWALData BEFORE the repairs: one element per flushBlock call: (shard, seg, blk) and the datapoints of the
+block that is written; every group is replayed, in directory order -/
+def recoverOld (d : RawDir) : List (Key × List Dp) :=
+  (groupsOld d).filterMap (fun g =>
     let dps := groupDps g
     if dps.isEmpty then none else some ((g.info.mId, g.info.seg, g.info.blk), dps))
+
+/-- the first (oldest) WAL file of the group is still there.  The WAL files of a block are deleted oldest first and
+only after the block was flushed (rotateBlock, RecoverWALData), so a group without its file 0 belongs to a block that
+is complete on disk (repair c10-3: such a group is deleted, not replayed) -/
+def hasFirstWal (g : Group) : Bool :=
+  match g.files with
+  | [] => true
+  | f :: _ => walIndexOf f.1 == 0
+
+/-- RecoverWALData: one element per flushBlock call -/
+def recover (d : RawDir) : List (Key × List Dp) :=
+  (groups d).filterMap (fun g =>
+    if !hasFirstWal g then none
+    else
+      let dps := groupDps g
+      if dps.isEmpty then none else some ((g.info.mId, g.info.seg, g.info.blk), dps))
 
 /-! ### block files: flushBlock creates or TRUNCATES the files of block (shard, seg, blk) -/
 
@@ -242,6 +280,8 @@ def dirAfter (cap shard : Nat) (h : List Op) : RawDir := rawOf (run cap shard h)
 def durableBlocks (cap shard : Nat) (h : List Op) : Disk := (run cap shard h).durable
 /-- the block files after restart ran RecoverWALData -/
 def diskAfterRecovery (cap shard : Nat) (h : List Op) : Disk := applyFlushes (durableBlocks cap shard h) (recover (dirAfter cap shard h))
+/-- … with RecoverWALData as it was before the repairs -/
+def diskAfterRecoveryOld (cap shard : Nat) (h : List Op) : Disk := applyFlushes (durableBlocks cap shard h) (recoverOld (dirAfter cap shard h))
 
 /-! ### specification: which block every datapoint belongs to, and whether its log append (or the rotation of
 its block) completed before the crash.  No files, no names, no buffers. -/
@@ -331,6 +371,7 @@ def sysRun (cap n : Nat) (h : List SysOp) : Sys := h.foldl (sysStep cap) (Sys.in
 def sysDir (s : Sys) : RawDir := s.shards.flatMap (fun st => rawOf st.files)
 def sysDurable (s : Sys) : Disk := s.shards.flatMap (·.durable)
 def sysDiskAfterRecovery (s : Sys) : Disk := applyFlushes (sysDurable s) (recover (sysDir s))
+def sysDiskAfterRecoveryOld (s : Sys) : Disk := applyFlushes (sysDurable s) (recoverOld (sysDir s))
 
 /-- metricmeta.json after RecoverMEntryWALData (the reader keeps the LAST entry per segment directory) -/
 def sysMetaAfterRecovery (s : Sys) : List MetaEntry := s.metaFile ++ s.metaWal
@@ -385,12 +426,20 @@ inductive RecAction where
   | flush (k : Key) (dps : List Wal.Dp)  -- flushBlock completed
 deriving Repr
 
-/-- RecoverWALData as a sequence of steps: per group, every file is deleted right after its replay into MEMORY,
-and only then the block is flushed -/
-def recoverActions (d : RawDir) : List RecAction :=
-  (groups d).flatMap (fun g =>
+/-- RecoverWALData BEFORE the repairs as a sequence of steps: per group, every file is deleted right after its replay
+into MEMORY, and only then the block is flushed -/
+def recoverActionsOld (d : RawDir) : List RecAction :=
+  (groupsOld d).flatMap (fun g =>
     g.files.map (fun f => RecAction.delete f.1)
       ++ (if (groupDps g).isEmpty then [] else [RecAction.flush (g.info.mId, g.info.seg, g.info.blk) (groupDps g)]))
+
+/-- RecoverWALData (after c10-2, c10-3) as a sequence of steps: a group whose first WAL file is gone is only deleted;
+otherwise the block is flushed FIRST and the replayed files are deleted afterwards, oldest first -/
+def recoverActions (d : RawDir) : List RecAction :=
+  (groups d).flatMap (fun g =>
+    (if !hasFirstWal g || (groupDps g).isEmpty then []
+     else [RecAction.flush (g.info.mId, g.info.seg, g.info.blk) (groupDps g)])
+      ++ g.files.map (fun f => RecAction.delete f.1))
 
 def applyRecAction (s : RawDir × Disk) : RecAction → RawDir × Disk
   | .delete n => (s.1.filter (fun f => f.1 != n), s.2)
@@ -399,16 +448,26 @@ def applyRecAction (s : RawDir × Disk) : RecAction → RawDir × Disk
 /-- the WAL directory and the block files after RecoverWALData died right after its `m`-th step -/
 def recoverCrashed (m : Nat) (d : RawDir) (disk : Disk) : RawDir × Disk :=
   ((recoverActions d).take m).foldl applyRecAction (d, disk)
+def recoverCrashedOld (m : Nat) (d : RawDir) (disk : Disk) : RawDir × Disk :=
+  ((recoverActionsOld d).take m).foldl applyRecAction (d, disk)
 
 /-- block files after: crash of the writer, a first restart whose RecoverWALData dies after `m` steps, a second
 restart that recovers completely -/
 def diskAfterCrashedRecovery (m : Nat) (d : RawDir) (disk : Disk) : Disk :=
   let s := recoverCrashed m d disk
   applyFlushes s.2 (recover s.1)
+def diskAfterCrashedRecoveryOld (m : Nat) (d : RawDir) (disk : Disk) : Disk :=
+  let s := recoverCrashedOld m d disk
+  applyFlushes s.2 (recoverOld s.1)
 
-/-- Wal.Write (meta WAL) = truncate ; encode ; writeBlockToFile.  Died right after truncate: the file holds the
-version byte only. -/
-def metaFlushCrash (m : Nat) (s : Sys) : Sys :=
+/-- Wal.Write (meta WAL) BEFORE the repair c10-4 = truncate ; encode ; writeBlockToFile.  Died right after truncate:
+the file holds the version byte only. -/
+def metaFlushCrashOld (m : Nat) (s : Sys) : Sys :=
   if m = 1 then { s with metaWal := [] } else { s with metaWal := s.shards.map metaOf }
+
+/-- Wal.Write (after c10-4) = encode ; open <file>.tmp ; write version + block ; Sync ; Rename over the WAL file.
+Steps: OpenFile, writeBlockToFile, Sync, Rename.  Died before the Rename completed: the WAL is unchanged. -/
+def metaFlushCrash (m : Nat) (s : Sys) : Sys :=
+  if m < 4 then s else { s with metaWal := s.shards.map metaOf }
 
 end SigModel.WalRecover
